@@ -413,7 +413,16 @@ def _device_connect(ctx, R, roles, T):
     R.check(bt is not None and bt[0] in ("attr", "phi", "call", "c") and "_banner" in show(bt), "HS-device", f.qualname + "|banner", "the device's banner is what CNXN announces", "connect() passes %s as banner" % (show(bt) if bt else "?"), f.loc(n.ast))
     for rn in g.live_nodes():
         if rn.kind == "stmt" and isinstance(rn.ast, ast.Return):
-            rt = T.term(f, rn, rn.ast.value) if rn.ast.value is not None else None
+            rv = unawait(rn.ast.value) if rn.ast.value is not None else None
+            if isinstance(rv, ast.Attribute) and isinstance(rv.value, ast.Name) and f.params and rv.value.id == f.params[0] and f.cls is not None:
+                # `return self.available`: a property of this class that just hands out one attribute is that attribute here
+                pm = ctx.pkg.find_method(f.cls, rv.attr)
+                if pm is not None and pm.is_property:
+                    pb = [b for b in pm.node.body if not (isinstance(b, ast.Expr) and isinstance(b.value, ast.Constant))]
+                    if len(pb) == 1 and isinstance(pb[0], ast.Return) and isinstance(pb[0].value, ast.Attribute) and isinstance(pb[0].value.value, ast.Name) and pb[0].value.value.id == pm.params[0]:
+                        rv = ast.copy_location(ast.Attribute(value=ast.Name(id=f.params[0], ctx=ast.Load()), attr=pb[0].value.attr, ctx=ast.Load()), rv)
+                        ast.fix_missing_locations(rv)
+            rt = T.term(f, rn, rv) if rv is not None else None
             okr = rt == ("proj", mt, 0) and g.dominates([n], rn) and all(g.dominates([x], rn) for x in results["_available"])
             R.check(okr, "HS-device", "%s|%s" % (f.qualname, norm_stmt(rn.ast)),
                     "connect() returns the availability it just stored", "connect() returns `%s`" % norm_stmt(rn.ast), f.loc(rn.ast))
